@@ -38,6 +38,7 @@ class FnContract:
     yields: dict[int, list[str]] = field(default_factory=dict)  # generator cut points
     ghost_post: list[str] = field(default_factory=list)
     gen: dict | None = None           # generator (coroutine) verification spec
+    default_reads: bool = False        # d[k] on a defaultdict inside this contract's specifications means d.get(k, 0)
     nl: str = "uf"                     # "native": products/quotients of symbols are interpreted (small arithmetic-only functions)
     native_ensures: list = field(default_factory=list)   # (label, expr) clauses only evaluated by the run-time monitors (bounded), never counted as proved
     variants: dict = field(default_factory=dict)   # callee qname -> contract variant key ("<qname>#<variant>") to use in this proof
@@ -64,6 +65,7 @@ class Spec:
         self.fns: dict[str, FnContract] = {}
         self.preds: dict[str, Pred] = {}
         self.measures: dict[str, tuple] = {}   # name -> (cls, var, expr, T)
+        self.measure_params: dict[str, tuple] = {}   # name -> (param name, param type) for indexed families
         self.externals: dict[str, FnContract] = {}
         self.lemmas: list[tuple[str, list, str, str]] = []
         self.const_modules: list[str] = ["eudoxia.workload.runtime_status", "eudoxia.utils", "eudoxia.utils.consts"]
@@ -97,9 +99,12 @@ class Spec:
             raise ValueError(f"specification predicate {name} is defined twice with different bodies")
         self.preds[name] = Pred(name, params, body)
 
-    def measure(self, name: str, cls: str, var: str, expr: str, t: ty.T = ty.REAL):
-        """A named element->value map over immutable fields, usable as Sum(seq, name)."""
+    def measure(self, name: str, cls: str, var: str, expr: str, t: ty.T = ty.REAL, param=None):
+        """A named element->value map over immutable fields, usable as Sum(seq, name).
+        param=(pname, ptype): a family of such maps indexed by one value, used as Sum(seq, name, value)."""
         self.measures[name] = (cls, var, expr, t)
+        if param is not None:
+            self.measure_params[name] = param
 
     def field(self, cls: str, name: str, mro: list[str]):
         for c in mro:
@@ -114,6 +119,7 @@ class Spec:
         self.fns.update(other.fns)
         self.preds.update(other.preds)
         self.measures.update(other.measures)
+        self.measure_params.update(other.measure_params)
         self.lemmas.extend(other.lemmas)
 
 
